@@ -1,3 +1,4 @@
 import Drive.Util
 import Drive.Timer
 import Drive.Interp
+import Drive.Btdmp
